@@ -95,6 +95,32 @@ def truncOp (args : List String) : String :=
     | _, _ => "bad-op"
   | _ => "bad-op"
 
+/-- `Msg.Truncate(size)` on the octets of a reply: decoded by the model, measured by the translated `len()` bodies with
+    Len's simulated compression, truncated by the generic machine of DnsModel/Truncate.lean -/
+def truncWireOp (size : Int) (msg : Bytes) : String :=
+  match MU.unpackMsg msg with
+  | none => "hdr-err"
+  | some m =>
+    if m.err then "err"
+    else if (m.extra.getLast?.map (fun r => r.typ == 250)).getD false then "tsig"   -- IsTsig: the last additional record
+    else
+      -- popEdns0: the last OPT record of the additional section
+      let idx := (m.extra.reverse.findIdx? (fun r => r.typ == 41)).map (fun i => m.extra.length - 1 - i)
+      let extra' := match idx with | some i => m.extra.eraseIdx i | none => m.extra
+      let opt := idx.bind (fun i => m.extra[i]?)
+      let lenf := fun (c : Option (List Bytes)) (off : Nat) (r : Sum MU.Qm MU.RRm) => match r with
+        | .inl q => let d := domainNameLen q.name off c true; (d.1 + 4, d.2)
+        | .inr rr => (Len.lenRRC off c rr).getD (0, c)
+      let covered := (m.answer ++ m.ns ++ m.extra).all (fun r => (Len.lenRRC 0 none r).isSome)
+      if !covered then "uncovered"
+      else
+        let tm : TMsg (Sum MU.Qm MU.RRm) := ⟨m.question.map Sum.inl, m.answer.map Sum.inr, m.ns.map Sum.inr, extra'.map Sum.inr,
+          opt.map Sum.inr, m.hdr.truncated, false⟩
+        let ulen := (Len.lenMsg m false).getD 0
+        let optLen := match opt with | some o => ((Len.lenRRC 0 none o).map (·.1)).getD 0 | none => 0
+        let m' := truncate lenf (some []) ulen optLen size tm
+        s!"{m'.answer.length} {m'.ns.length} {m'.extra.length} {showB m'.truncated} {showB m'.compress}"
+
 /-- reads for the transfer machines: `E` (read error) or `id:rcode:records` with records a string over
     `s<serial>.` / `o.` e.g. `7:0:s5.o.o.s5.` -/
 def parseReads (args : List String) : List Read :=
@@ -107,6 +133,24 @@ def parseReads (args : List String) : List Read :=
           else if r.startsWith "o" then some (XRec.other 0) else none
         Read.msg (id.toNat?.getD 0) (rc.toNat?.getD 0) rs
       | _ => Read.err
+
+/-- reads for the transfer machines from the octets of the envelopes: `E` (read error) or the message in hex, decoded by
+    the model; a record of the answer section is an SOA with its serial (third field of the SOA body) or another record -/
+def parseWireReads (args : List String) : List Read :=
+  args.map fun a =>
+    if a == "E" then Read.err
+    else match unhex a with
+      | none => Read.err
+      | some b => match MU.unpackMsg b with
+        | none => Read.err
+        | some m =>
+          if m.err then Read.err
+          else Read.msg m.id m.rcode (m.answer.map fun r =>
+            if r.typ == 6 then
+              (match r.body with
+               | some (_ :: _ :: Val.n serial :: _) => XRec.soa serial
+               | _ => XRec.soa 0)
+            else XRec.other 0)
 
 def showEnvs (es : List Env) : String :=
   " ".intercalate (es.map fun e => match e with
@@ -422,6 +466,9 @@ def runOp (op : String) (args : List String) : String :=
     | some st => lenMsg (cm == "1") st items
     | none => "bad-op"
   | "trunc", args => truncOp args
+  | "truncate.wire", [size, m] => (match size.toInt?, unhex m with
+    | some sz, some msg => truncWireOp sz msg
+    | _, _ => "bad-op")
   | "norm", [t] => match unhex t with
     | some s => hex (normalizedString s) | _ => "bad-op"
   | "dedup", recs =>
@@ -467,6 +514,21 @@ def runOp (op : String) (args : List String) : String :=
         | .ignored => "ignored"
         | .reply h i => s!"reply {(packBits h).toNat} {showB i}")
     | _, _, _, _, _ => "bad-op"
+  | "serve.packet", [pk] =>
+    -- the admission decision closed over the decoder model: no flag supplied from outside
+    match (if pk == "-" then some [] else unhex pk) with
+    | some p =>
+      if p.length < 12 then "invalid"
+      else
+        let w (i : Nat) := beVal ((p.drop (2 * i)).take 2)
+        let bits := BitVec.ofNat 16 (w 1)
+        let decodeOk := match MU.unpackMsg p with | some m => !m.err | none => false
+        (match serveDecision true (defaultAccept bits (w 2) (w 3) (w 4) (w 5)) (unpackBits bits) decodeOk with
+          | .invalidOnly => "invalid"
+          | .handler => "handler"
+          | .ignored => "ignored"
+          | .reply h i => s!"reply {(packBits h).toNat} {showB i}")
+    | none => "bad-op"
   | "mux", ds :: q :: pats =>
     match unhex q with
     | some q => (match muxMatch (pats.filterMap unhex) q (ds == "1") with
@@ -474,6 +536,12 @@ def runOp (op : String) (args : List String) : String :=
     | none => "bad-op"
   | "axfr", qid :: reads =>
     let (d, n) := inAxfr (qid.toNat?.getD 0) (parseReads reads) true
+    s!"{n} {showEnvs d}"
+  | "axfr.wire", qid :: reads =>
+    let (d, n) := inAxfr (qid.toNat?.getD 0) (parseWireReads reads) true
+    s!"{n} {showEnvs d}"
+  | "ixfr.wire", qid :: qser :: reads =>
+    let (d, n) := inIxfr (qid.toNat?.getD 0) (qser.toNat?.getD 0) (parseWireReads reads) 0 0 true
     s!"{n} {showEnvs d}"
   | "ixfr", qid :: qser :: reads =>
     let (d, n) := inIxfr (qid.toNat?.getD 0) (qser.toNat?.getD 0) (parseReads reads) 0 0 true
